@@ -8,7 +8,8 @@ from .. import convmon, core, kit, model, oracle
 ID = "C11"
 LEVEL = "exploration"
 RULE = ("the table {registered prefix} x {registered unit} x {exponent -4..4} is enumerated in full; prefix products, "
-        "quotients, powers and roots (same base and mixed SI/IEC) on registered and compound units are sampled; "
+        "quotients, powers and roots (same base and mixed SI/IEC) on registered and compound units are sampled; anonymous "
+        "prefixes are created first through one of nine routes chosen at random and then reached through all others; "
         "distinct = (prefix or prefix expression, unit, exponent); non-trivial = the prefix is not the identity")
 ASSUMPTIONS = [
     "prefix values are exact Fractions computed from the base/exponent fields, not from Prefix.quantify()",
@@ -135,6 +136,66 @@ def run(ctx):
                         ctx.violation("C11:prefix-root-of-power", f"({an}**{n}).root({n})", {"a": an, "n": n})
                 elif r is not Identity:
                     ctx.violation("C11:prefix-power-zero", f"{an}**{n} = {r!r}", {"a": an, "n": n})
+
+    # which operation creates an anonymous prefix first must not matter: every exponent outside the registered
+    # table is reached first through one randomly chosen route (constructor, product, quotient, power, root of a
+    # prefix / unit / quantity) and afterwards through all the others; all of them are one object whose exponent
+    # and value are exact integers
+    Meter = pools.units["meter"]
+    routes = {
+        "constructor": lambda b, e: m.Prefix(b, e),
+        "product": lambda b, e: m.Prefix(b, e - 7) * m.Prefix(b, 7),
+        "quotient": lambda b, e: m.Prefix(b, e + 5) / m.Prefix(b, 5),
+        "power": lambda b, e: (m.Prefix(b, e // 2) ** 2) if e % 2 == 0 else (m.Prefix(b, e - 1) * m.Prefix(b, 1)),
+        "prefix-root": lambda b, e: m.Prefix(b, e * 2).root(2),
+        "prefix-cube-root": lambda b, e: m.Prefix(b, e * 3).root(3),
+        "unit-root": lambda b, e: ((m.Prefix(b, e * 2) * Meter) ** 1 * Meter).root(2).prefix,
+        "quantity-root": lambda b, e: (4 * (m.Prefix(b, e * 2) * Meter**2)).root(2).unit.prefix,
+        "unit-power": lambda b, e: ((m.Prefix(b, e // 2) * Meter) ** 2).prefix if e % 2 == 0 else (m.Prefix(b, e) * Meter).prefix,
+    }
+    exps = [e for e in range(31 + 40 * ctx.shard, 71 + 40 * ctx.shard)] + [-e for e in range(31 + 40 * ctx.shard, 51 + 40 * ctx.shard)]
+    rng.shuffle(exps)
+    for e in exps:
+        for b in (10, 2):
+            first = rng.choice(sorted(routes))
+            order = [first] + [r for r in sorted(routes) if r != first]
+            got = {}
+            for r in order:
+                ctx.count("evaluations")
+                ctx.count(f"prefix_histories/first={first}" if r == first else "prefix_histories/later_routes")
+                try:
+                    got[r] = routes[r](b, e)
+                except Exception as ex:
+                    ctx.violation(f"C11:raised:{type(ex).__name__}", f"prefix {b}^{e} through {r} (first created through {first}): {ex}", {"base": b, "exponent": e, "route": r, "first": first})
+            ctx.distinct(("prefix-history", first, b, e > 0, e % 2))
+            if not got:
+                continue
+            p0 = got[first] if first in got else next(iter(got.values()))
+            case = {"base": b, "exponent": e, "first": first}
+            for r, px in got.items():
+                if px is not p0:
+                    ctx.violation("C11:same-base-prefix-arithmetic", f"prefix {b}^{e} reached through {r} is {px!r}, first created through {first} as {p0!r}", {**case, "route": r})
+            if type(p0.exponent) is not int or p0.exponent != e or p0.base != b:
+                ctx.violation("C11:prefix-exponent-not-exact", f"prefix {b}^{e} first created through {first} carries exponent {p0.exponent!r} ({type(p0.exponent).__name__})", case)
+            q = 3 * (p0 * Meter)
+            try:
+                un, val = q.unprefixed().magnitude, p0.quantify()
+            except Exception as ex:
+                ctx.violation(f"C11:raised:{type(ex).__name__}", f"quantify/unprefixed of prefix {b}^{e} (first created through {first}): {ex}", case)
+                continue
+            exact = Fraction(b) ** e
+            ctx.count("identities/exact_prefix_value")
+            if e > 0 and (un != 3 * b**e or val != b**e or not isinstance(un, int)):
+                ctx.violation("C11:unprefixed-changes-value", f"3*({b}^{e}*meter).unprefixed() = {un!r}, exact {3 * b**e} (prefix first created through {first})", case)
+            elif e < 0 and not (close(un, 3 * exact, R12) and close(val, exact, R12)):
+                ctx.violation("C11:unprefixed-changes-value", f"3*({b}^{e}*meter).unprefixed() = {un!r}, exact {core.sf(3 * exact)!r} (prefix first created through {first})", case)
+            # and the powers that land on it from registered prefixes
+            if e > 0 and e % 4 == 0 and b == 10:
+                k = e // 4
+                lhs = 3 * ((m.Prefix(10, k - 1) * m.Prefix(10, 1)) * Meter) ** 4
+                rhs = 3 * 10**e * Meter**4
+                if not (lhs == rhs and rhs == lhs):
+                    ctx.violation("C11:prefixed-quantity-not-equal-to-scaled", f"3*((10^{k})*meter)**4 != 3*10**{e}*meter**4 (prefix first created through {first})", case)
 
     # conversions between prefixed versions of one unit, and compound units
     n = ctx.scale(3000, 300000)
